@@ -763,3 +763,90 @@ routine_harness!(c14c01c02_lex_string_t, Class::Str, 8, 10);
 routine_harness!(c14c01c02_lex_var_name_t, Class::VarName, 8, 10);
 routine_harness!(c14c01c02_lex_code_t, Class::Code, 9, 11);
 routine_harness!(c14c01c02_lex_hash_t, Class::Hash, 10, 12);
+
+// ---------------------------------------------------------------------------
+// C20: the completion vocabulary (tables generated at run time from the real
+// Analysis::completion) vs. the lexer
+
+use crate::verif_completion_gen as comp;
+
+fn in_table(w: &[u8], table: &[&[u8]]) -> bool {
+    let mut i = 0;
+    let mut found = false;
+    while i < table.len() {
+        if table[i] == w {
+            found = true;
+        }
+        i += 1;
+    }
+    found
+}
+
+/// for EVERY s in [a-z0-9_]{0,12}: lex("!" + s) is a bang/cond operator token spanning the
+/// whole word  <=>  s is offered after `!`.  The routine is entered as the dispatch harness
+/// proves it is entered for a leading `!`.
+#[kani::proof]
+#[kani::unwind(15)]
+#[kani::stub(crate::lexer::Lexer::error, crate::lexer::Lexer::verif_error_stub)]
+fn c20_bang_vocabulary() {
+    let bytes: [u8; 13] = kani::any();
+    let len: usize = kani::any();
+    kani::assume(len >= 1 && len <= 13);
+    kani::assume(bytes[0] == b'!');
+    let mut i = 1;
+    while i < 13 {
+        let b = bytes[i];
+        kani::assume((b >= b'a' && b <= b'z') || (b >= b'0' && b <= b'9') || b == b'_');
+        i += 1;
+    }
+    let text = unsafe { std::str::from_utf8_unchecked(&bytes[..len]) };
+    let w = &bytes[1..len];
+    let mut l = Lexer::new(text);
+    l.s.jump(1);
+    let kind = l.bangoperator();
+    let lexed = (kind.is_bang_operator() || kind.is_cond_operator()) && l.s.cursor() == len && l.error.is_none();
+    let offered = comp::in_bang(w);
+    if offered && !lexed {
+        if comp::in_kf_c20_bang_offered_not_lexed(w) {
+            kani::cover!(true, "KF:C20_BANG_OFFERED_NOT_LEXED");
+        } else {
+            assert!(false, "C20: every bang operator offered after `!` is lexed as a bang operator");
+        }
+    }
+    if lexed && !offered {
+        if comp::in_kf_c20_bang_lexed_not_offered(w) {
+            kani::cover!(true, "KF:C20_BANG_LEXED_NOT_OFFERED");
+        } else {
+            assert!(false, "C20: every bang operator the lexer accepts is offered after `!`");
+        }
+    }
+    kani::cover!(lexed && offered && len >= 11, "W: a long operator is both lexed and offered");
+}
+
+/// every offered keyword / type name / boolean is lexed as exactly that keyword token
+#[kani::proof]
+#[kani::unwind(16)]
+#[kani::stub(crate::lexer::Lexer::error, crate::lexer::Lexer::verif_error_stub)]
+fn c20_keyword_vocabulary() {
+    let tables: [&[&[u8]]; 3] = [comp::TOPLEVEL, comp::TYPES, comp::VALUES];
+    let mut n = 0;
+    let mut t = 0;
+    while t < 3 {
+        let table = tables[t];
+        let mut i = 0;
+        while i < table.len() {
+            let w = table[i];
+            let text = unsafe { std::str::from_utf8_unchecked(w) };
+            let mut l = Lexer::new(text);
+            let kind = l.next_token();
+            assert!(l.s.cursor() == w.len() && l.error.is_none(), "C20: offered word is one token");
+            assert!(kind != K::Id && kind != K::Error, "C20: offered keyword is not a plain identifier or an error");
+            assert!(kind == ref_keyword(w), "C20: offered keyword is lexed as exactly that keyword");
+            n += 1;
+            i += 1;
+        }
+        t += 1;
+    }
+    assert!(n >= 1, "W: tables not empty");
+    kani::cover!(n >= 20, "W: at least 20 offered words checked");
+}
